@@ -115,6 +115,45 @@ def run(tier, seed):
     for s in alphabet:
         got, want = observe(E.PARSER, s, 'parse'), fresh_outcome(s, 'parse')
         (t.ok if got == want else t.fail)('shared PARSER', s, *([] if got == want else ['shared parser on %r: %r, fresh parser: %r' % (s, got, want)]))
+    # graders in between: whatever graders did with the shared parser (their own parse calls, the name sets they read from the parse results),
+    # the shared parser afterwards reports for every string exactly what a fresh parser reports
+    fgm = rtcheck.real_module('mitxgraders/formulagrader/formulagrader.py')
+    igm = rtcheck.real_module('mitxgraders/formulagrader/integralgrader.py')
+    probes = ['n^2 + 1', 'x*k^2', 'sin(x) + y', 'x + 1', 'sqrt(16)', 'f(x) + n', '2*m']
+
+    def grader_calls():
+        g = igm.SumGrader(answers={'lower': '1', 'upper': 'sqrt(16)', 'summand': 'n^2 + 1', 'summation_variable': 'n'}, input_positions={'lower': 1, 'upper': 2, 'summand': 3})
+        for inp in (['1', 'sqrt(16)', 'n^2 + 1'], ['abs(-1)', '4', 'n^2 + 1'], ['1', 'max(4, 2)', 'n^2+1']):
+            try:
+                g(None, inp)
+            except Exception:
+                pass
+        g = igm.SumGrader(answers={'lower': 'cos(0)', 'upper': '6', 'summand': 'x*k^2', 'summation_variable': 'k'}, variables=['x'], input_positions={'summand': 1})
+        for inp in ('x*k^2', 'x*m^2'):
+            try:
+                g(None, inp)
+            except Exception:
+                pass
+        for ans, inp, kw in (('sin(x) + y', 'y + sin(x)', dict(variables=['x', 'y'])), ('x + 1', 'sin(x)', dict(variables=['x'], blacklist=['cos'])),
+                             ('f(x) + n', 'n + f(x)', dict(variables=['x', 'n'], user_functions={'f': lambda u: u * u}))):
+            try:
+                fgm.FormulaGrader(answers=ans, **kw)(None, inp)
+            except Exception:
+                pass
+
+    def names(s):
+        p = E.PARSER.parse(s)
+        return (sorted(p.variables_used), sorted(p.functions_used), sorted(p.suffixes_used))
+
+    def fresh_names(s):
+        p = E.MathParser().parse(s)
+        return (sorted(p.variables_used), sorted(p.functions_used), sorted(p.suffixes_used))
+    for rnd_no in range(2):
+        grader_calls()
+        for s in probes:
+            got, want = names(s), fresh_names(s)
+            (t.ok if got == want else t.fail)('shared PARSER after grader calls', (rnd_no, s), *([] if got == want else [
+                'after SumGrader/FormulaGrader calls the shared parser reports %r for %r, a fresh parser reports %r' % (got, s, want)]))
     return t.report(rule="random derivations with constructed name sets parsed by fresh parsers; call sequences over a 13-string alphabet (malformed strings included) with parse/evaluate interleaved, "
                          "each step compared with a fresh parser and the scratch sets inspected; distinct = distinct expressions / sequences", bounds={'expressions': n_expr, 'sequence length': L, 'sequences': len(seqs)},
                     exhaustive=(tier == 'thorough'))
